@@ -136,6 +136,13 @@ func discoverEntries(p *Program) []Entry {
 	} {
 		add(p.Fn(k), "library verifier for foreign data")
 	}
+	// the codec's reader: every generated decoder — of messages the engine receives today or of
+	// any other schema — is a sequence of calls to its exported methods on foreign bytes
+	for _, fn := range p.OwnFuncs {
+		if IsProd(fn) && fn.Object() != nil && fn.Object().Exported() && fn.Signature.Recv() != nil && strings.HasPrefix(FuncKey(fn), "pkg/codec.(*Reader).") {
+			add(fn, "library decoder primitive for foreign data")
+		}
+	}
 	sort.Slice(out, func(i, j int) bool { return FuncKey(out[i].Fn) < FuncKey(out[j].Fn) })
 	return out
 }
@@ -293,8 +300,14 @@ func panicSites(p *Program, fn *ssa.Function, unproven map[string]string) (sites
 					sites = append(sites, PanicSite{fn, in, "div", "division by " + T(x.Y).String(), pos(x)})
 				}
 			case *ssa.MakeSlice:
-				if _, isC := x.Len.(*ssa.Const); !isC {
+				_, lenC := x.Len.(*ssa.Const)
+				_, capC := x.Cap.(*ssa.Const)
+				switch {
+				case !lenC:
 					sites = append(sites, PanicSite{fn, in, "make", "make with length " + T(x.Len).String(), pos(x)})
+				case !capC && x.Cap != x.Len:
+					// make([]T, 0, n): the capacity is allocated at once, whatever is appended later
+					sites = append(sites, PanicSite{fn, in, "make", "make with capacity " + T(x.Cap).String(), pos(x)})
 				}
 			case *ssa.Call:
 				// library functions that panic on a malformed argument (documented precondition)
